@@ -51,6 +51,18 @@ import is followed through attribute chains.  `global n` writes in functions are
 (call-time changes of the module namespace, explored by the resolver's closure over call sequences);
 `globals()["n"] = ...` likewise, `globals()[computed] = ...` can only add opaque bindings and is ignored (cautious).
 
+Handlers.  A `try` with a handler that catches ImportError / NameError / AttributeError (or Exception, or a bare
+`except`) is translated with its structure (`tryBegin … tryExcept mask … tryEnd`, several handlers nest): the
+resolver runs the handler exactly when the body raises such a failure, so `try: unicode / except NameError:` is not
+a failure.  Inside a function the handlers are, in addition, always checked as regions.
+
+Aliases.  `x = name.a.b` at module level, or in a function for a local `x` that nothing else binds and whose root is
+a global / import-bound local / another alias, is an `alias` event: `x` is bound to what the chain denotes.
+
+Classes.  Every `class` statement (bases resolved against the whole tree: a class of the tree, a builtin, unknown),
+every `raise X(...)` / `raise X` whose `X` is a name or attribute chain not rooted at a local, and every read of a local
+that CPython's compiler marks as possibly unbound (LOAD_FAST_CHECK; AUDITED_MAYBE_UNBOUND is the allow-list).
+
 Coverage.  Every Name, Attribute, import statement and function of the source is accounted for (translated, in a
 dead interpreter-version branch, or in an annotation that is never evaluated); `coverage` per module, checked
 against an independent ast.walk count by the harness.
